@@ -3,3 +3,7 @@ import Props.C13
 #print axioms C13.rgbToYuv_total
 #print axioms C13.yuvToRgb_total
 #print axioms C13.float_stages_total
+#print axioms C13.rgbToLinear_total
+#print axioms C13.linearToRgb_total
+#print axioms C18.exp2_total
+#print axioms C18.curve_total
